@@ -317,6 +317,34 @@ func rMatchConservative(toks []rTok, path string) bool {
 	}
 }
 
+// rMatchLiberal: an over-approximation of what the router can match: a parameter may also take zero bytes
+// when the rest of the path is not empty (echo accepts an empty value in front of a `/`).
+func rMatchLiberal(toks []rTok, path string) bool {
+	if len(toks) == 0 {
+		return path == ""
+	}
+	t := toks[0]
+	switch t.kind {
+	case 'l':
+		return path != "" && path[0] == t.c && rMatchLiberal(toks[1:], path[1:])
+	case 'a':
+		return true
+	default:
+		if path == "" {
+			return false
+		}
+		if len(toks) == 1 {
+			return true // a parameter at the end of a pattern takes the whole rest, slashes included
+		}
+		for i := 0; i <= len(path) && (i == 0 || path[i-1] != '/'); i++ {
+			if rMatchLiberal(toks[1:], path[i:]) {
+				return true
+			}
+		}
+		return false
+	}
+}
+
 // ---------- generators ----------
 
 var rLits = []string{"a", "b", "ab", "abc", "users", "x.y", "a-b", "new", "v1"}
